@@ -194,6 +194,43 @@ void harness(void)
       CHECK(!Repass, "a rejected definition does not request a repass");
     }
   }
+#elif defined(K_SECTION)
+  {
+    /* C13-K2: resolution order.  'L' may be defined globally (-1), in the outer section (handle 1) and in
+       the inner section (handle 2); the reference is made inside the inner section.  Unqualified: innermost
+       enclosing definition wins; name[section] / name[]: exactly that section. */
+    static TSaveSection st_outer, st_glob;
+    static const LongInt hnd[3] = { -1, 1, 2 };
+    LargeInt val[3]; int lvl, expect = -1;
+    TempResult v; as_tempres_ini(&v);
+    PassNo = 2; MaxSymPass = 1;
+    for (lvl = 0; lvl < 3; lvl++)
+    {
+      val[lvl] = in_ev_val[lvl];
+      if (in_prev_def[lvl < 2 ? lvl : 0] & (lvl < 2 ? 1 : 2))          /* presence bits: prev_def[0] bit0 = global, prev_def[1] bit0 = outer, prev_def[0] bit1 = inner */
+      { MomSectionHandle = hnd[lvl]; SectionStack = NULL; EnterIntSymbolWithFlags(&cL, val[lvl], SegNone, False, eSymbolFlag_None); }
+    }
+    CHECK(diag_cnt == 0, "same name in different sections does not clash");
+    /* nesting: inner (2) inside outer (1) inside global (-1) */
+    MomSectionHandle = 2; st_outer.Handle = 1; st_outer.Next = &st_glob; st_glob.Handle = -1; st_glob.Next = NULL; SectionStack = &st_outer;
+    ASSUME(in_passno <= 2);
+    qual_handle = in_passno == 0 ? -2 : in_passno == 1 ? -1 : 1;   /* none / name[] / name[outer] */
+    {
+      int has_glob = in_prev_def[0] & 1, has_outer = in_prev_def[1] & 1, has_inner = (in_prev_def[0] >> 1) & 1;
+      if (qual_handle == -2) expect = has_inner ? 2 : has_outer ? 1 : has_glob ? 0 : -1;
+      else if (qual_handle == -1) expect = has_glob ? 0 : -1;
+      else expect = has_outer ? 1 : -1;
+    }
+    LookupSymbol(&cL, &v, False, TempInt);
+    if (expect >= 0)
+    {
+      CHECK(diag_cnt == 0 && v.Typ == TempInt, "a visible definition is found");
+      CHECK(v.Contents.Int == val[expect], "the reference resolves to the innermost enclosing definition, or to the qualified section");
+      WITNESS("resolved");
+    }
+    else
+      CHECK(diag_errs > 0, "no visible definition: undefined symbol (pass 2)");
+  }
 #endif
   WITNESS("end");
 }
